@@ -21,7 +21,7 @@ Named(script) ==
                                  (IF script[i].kind = "step" \/ (script[i].kind = "copy" /\ script[i].dist)
                                     THEN FilesOf(script[i].ins) ELSE {}) }
           \cup (IF script[i].pch THEN {PchFile(script[i].name) \o ".h"} ELSE {})
-          \cup (IF script[i].hdr THEN {"h2.h"} ELSE {})
+          \cup (IF script[i].hdr THEN {"h2.h"} ELSE {}) \cup (IF script[i].vlib THEN {"libv1.a"} ELSE {})
           : i \in 1..Len(script) }
 \* files named only by dist=False declarations
 NoDistOnly(script) ==
